@@ -29,6 +29,7 @@ import (
 
 	"github.com/elastos/Elastos.ELA/common"
 	"github.com/elastos/Elastos.ELA/core/types"
+	"github.com/elastos/Elastos.ELA/core/types/payload"
 	"github.com/elastos/Elastos.ELA/dpos"
 	dmsg "github.com/elastos/Elastos.ELA/dpos/p2p/msg"
 	dpeer "github.com/elastos/Elastos.ELA/dpos/p2p/peer"
@@ -542,6 +543,10 @@ func main() {
 		}
 	}
 	nCmds := len(labels)
+	nSeqs := 0
+	if r.Replay == "" {
+		nSeqs = writeSequences(r, &tabs[0], st, samples)
+	}
 	type pend struct {
 		label    string
 		from     int
@@ -633,10 +638,11 @@ func main() {
 	r.Finish(evid.Coverage{
 		"evaluations":         st.evals,
 		"distinct_nontrivial": len(st.distinct),
-		"rule": "per (table, command): write/read round trip; every single-byte substitution of header and payload over the byte alphabet; declared length ∈ {0, len−1, len+1, MaxLength, MaxLength+1, 2^31, 2^32−1} with stale and recomputed checksum, stream cut or zero-padded; unknown commands; wrong magics; every truncation of the frame; for every documented per-message limit (repository constants) counts limit−1, limit (must round-trip) and limit+1 (must be refused). " +
+		"rule": "per (table, command): write/read round trip; every single-byte substitution of header and payload over the byte alphabet; declared length ∈ {0, len−1, len+1, MaxLength, MaxLength+1, 2^31, 2^32−1} with stale and recomputed checksum, stream cut or zero-padded; unknown commands; wrong magics; every truncation of the frame; for every documented per-message limit (repository constants) counts limit−1, limit (must round-trip) and limit+1 (must be refused); every sequence of at most three block messages over three blocks × {without, with confirm} written through the process-global send cache, each frame read back. " +
 			"distinct_nontrivial = distinct (table, command, corruption kind, rejection class) combinations + round trips",
 		"exhaustive":                     exhaustive,
 		"worker_deaths":                  deaths,
+		"block_write_sequences":          nSeqs,
 		"commands":                       nCmds,
 		"tables":                         []string{"main: p2p/peer.createMessage → elanet.createMessage", "dpos: dpos/p2p/peer.createMessage → dpos.createMessage"},
 		"outcomes":                       st.classes,
@@ -644,6 +650,89 @@ func main() {
 		"max_alloc_over_declared_length": st.maxRatio,
 		"samples":                        samples.Out,
 	})
+}
+
+// writeSequences: the serialized-block send cache of WriteMessage is process-global, so what a
+// write produces may depend on the writes before it. For three blocks, each with and without its
+// confirm, every sequence of at most three block messages is written on a freshly reset cache
+// (distinct block hashes per sequence as well) and every written frame is read back.
+func writeSequences(r *evid.Run, t *table, st *stats, samples *evid.Samples) int {
+	type item struct {
+		blk  int
+		conf bool
+	}
+	var alphabet []item
+	for b := 0; b < 3; b++ {
+		alphabet = append(alphabet, item{b, false}, item{b, true})
+	}
+	var seqs [][]item
+	var rec func(prefix []item)
+	rec = func(prefix []item) {
+		if len(prefix) > 0 {
+			seqs = append(seqs, append([]item{}, prefix...))
+		}
+		if len(prefix) == 3 {
+			return
+		}
+		for _, it := range alphabet {
+			rec(append(prefix, it))
+		}
+	}
+	rec(nil)
+	name := func(seq []item) string {
+		var parts []string
+		for _, it := range seq {
+			c := "-"
+			if it.conf {
+				c = "+confirm"
+			}
+			parts = append(parts, fmt.Sprintf("%c%s", 'A'+it.blk, c))
+		}
+		return strings.Join(parts, " ")
+	}
+	for si, seq := range seqs {
+		p2p.VerifSendCacheReset()
+		// three blocks of this sequence, hashes distinct from every other sequence
+		var blocks [3]*types.Block
+		var confirms [3]*payload.Confirm
+		for b := 0; b < 3; b++ {
+			f := &wire.Filler{N: 2, Bool: true}
+			blk := &types.Block{Header: *wire.NewHeader(f, 1, 1), Transactions: wire.SmallTxs(f, 1+b)}
+			blk.Header.Nonce = uint32(si*4 + b + 1)
+			blk.Header.Height = uint32(100 + b)
+			blocks[b] = blk
+			confirms[b] = wire.NewConfirm(f, 1+b)
+		}
+		for k, it := range seq {
+			st.evals++
+			db := &types.DposBlock{Block: blocks[it.blk], HaveConfirm: it.conf}
+			if it.conf {
+				db.Confirm = confirms[it.blk]
+			}
+			m := msg.NewBlock(db)
+			art := map[string]interface{}{"table": t.name, "command": p2p.CmdBlock, "label": "p2pmsg/block", "kind": "write-sequence", "sequence": name(seq), "step": k}
+			w := &bufConn{}
+			if err := p2p.WriteMessage(w, magic, m, time.Minute, getDposBlock); err != nil {
+				r.Violate("C35|write-sequence|write-error|block", "WriteMessage fails in a sequence of block messages: "+err.Error(), art)
+				break
+			}
+			res := read(t, w.out.Bytes(), 0)
+			if res.panic != "" || res.err != nil {
+				r.Violate("C35|write-sequence|read-rejected|block", fmt.Sprintf("in the write sequence [%s] the frame of write %d is not read back: %v %s", name(seq), k+1, res.err, res.panic), art)
+				break
+			}
+			if ok, d := wire.Equal(m, res.msg); !ok {
+				r.Violate("C35|write-sequence|roundtrip-diff|block", fmt.Sprintf("in the write sequence [%s] the message of write %d is read back different at %s", name(seq), k+1, d), art)
+				break
+			}
+			st.distinct[fmt.Sprintf("seq|%d|%v|%d", it.blk, it.conf, k)] = true
+		}
+		if si == 100 {
+			samples.Add(map[string]interface{}{"write_sequence": name(seq)})
+		}
+	}
+	p2p.VerifSendCacheReset()
+	return len(seqs)
 }
 
 func maxOf(t *table, cmd string) uint32 {
